@@ -17,7 +17,8 @@ MANIFEST = {
             "The backend emitters (REX, ModRM/SIB/disp incl. compressed disp8, VEX2/VEX3/XOP/EVEX prefix synthesis, immediates) are transcribed "
             "to Lean and proved for ALL field values to round-trip through the SDM field layout; the transcription and the front-end classes are "
             "tied to the real encoder by byte-for-byte correspondence on the same sweep.",
-    "note": "Proved (all inputs): backend round trips in Props/C01.lean. Tested (sweep judged by the Lean decoder, not proved): the front-end "
+    "note": "Proved (all inputs): backend round trips in Props/C01.lean; front_cls_correct_* (Props/C01Front.lean + C01Rows.lean: symbolic layer + "
+            "decide over the regenerated rows) for the register forms of VexRvm/VexRm/VexRvmi/VexRmi and their _Lx classes in 64-bit mode. Tested (sweep judged by the Lean decoder, not proved): the front-end "
             "dispatch of encoding classes without a class theorem, the opcode tables. Trusted: Lean kernel + bv_decide certificates; "
             "Spec/X86Decode.lean as the reading of the SDM; db/x86.js + tools/gen_c01.py (with its listed database errata); harness/driver/diff.",
 }
